@@ -24,9 +24,14 @@ ASSUMPTIONS = [
     "line_count keys are used with `where is_file = true` only",
 ]
 
-TEXT_KEYS = ["name", "path", "ext", "dir", "mode"]
+TEXT_KEYS = ["name", "path", "ext", "dir", "mode",
+             # text-valued functions of numeric / date columns are text too
+             "hex(size)", "concat(size, name)", "upper(name)", "substr(modified, 1, 4)"]
 NUM_KEYS = ["size", "size", "uid", "gid", "hardlinks", "length(name)", "size + 1", "size * 2", "length(name) + size",
-            "inode", "blocks", "day(modified)", "month(modified)", "year(modified)", "day(modified)"]
+            "inode", "blocks", "day(modified)", "month(modified)", "year(modified)", "day(modified)",
+            # integer-valued expressions whose numeric operand is not the left-most one, and negative values
+            "2 * size", "1000000 - size", "size - 100", "-size", "length(name) - 6", "dow(modified)", "100 + length(name)"]
+POSITIONAL_ONLY = ("2 * size", "1000000 - size", "-size", "100 + length(name)")   # a leading number / sign cannot start an ORDER BY key
 DATE_KEYS = ["modified"]
 EXTRA_COLS = ["name", "size", "ext", "modified", "mode", "uid", "hardlinks", "dir", "is_dir", "length(name)"]
 
@@ -65,7 +70,9 @@ def order_case(draw, tier, need_keys=True):
     for _ in range(nk):
         k = draw(st.sampled_from(pool))
         pos = None
-        if draw(st.sampled_from(range(3))) == 0:
+        if k in POSITIONAL_ONLY and k not in cols and len(cols) >= 4:
+            k = "size - 100"
+        if k in POSITIONAL_ONLY or draw(st.sampled_from(range(3))) == 0:
             # positional: the key must be a selected column; index counts `path` as column 1
             if k in cols:
                 pos = 2 + cols.index(k)
@@ -132,7 +139,7 @@ def typed(kt, text):
             v = float(text)
         except ValueError:
             return None
-        if v < 0 or v != int(v):
+        if v != int(v):
             return None
         return int(v)
     if kt == "date":
